@@ -4,7 +4,7 @@ cd /verif; : > seeded/RESULTS.txt
 for d in seeded/C*/; do
   id=$(basename $d)
   (cd /repo && git apply /verif/$d/patch.diff) || { echo "$id patch-does-not-apply" >> seeded/RESULTS.txt; continue; }
-  out=$(VERIF_SEED=${VERIF_SEED:-0} ./run $id quick 2>&1); rc=$?
+  prop=${id:0:3}; out=$(VERIF_SEED=${VERIF_SEED:-0} ./run $prop quick 2>&1); rc=$?
   line=$(echo "$out" | grep " quick: " | head -1)
   echo "$id exit=$rc $line" >> seeded/RESULTS.txt
   git -C /repo checkout -- .
